@@ -1,6 +1,7 @@
 package props
 
 import (
+	"sync"
 	"fmt"
 	"go/ast"
 	"go/constant"
@@ -111,7 +112,6 @@ func c10ClauseCalls(f *kit.Func, cc *ast.CaseClause) (refl map[string]bool, fns 
 	return
 }
 
-var c10HasKindSwitch = map[*kit.Func]bool{}
 
 // c10IsPlainHelper: an unexported function of the same package without a kind
 // switch of its own; what it does is attributed to the arm that calls it.
@@ -119,11 +119,12 @@ func c10IsPlainHelper(f, g *kit.Func) bool {
 	if g == nil || g.Decl == nil || g.Body == nil || g.Pkg != f.Pkg || ast.IsExported(g.Decl.Name.Name) {
 		return false
 	}
-	has, ok := c10HasKindSwitch[g]
-	if !ok {
-		has = len(c10KindSwitches(g)) > 0
-		c10HasKindSwitch[g] = has
+	memo := g.Prog.Aux("c10.hasKindSwitch", func() any { return &sync.Map{} }).(*sync.Map)
+	if v, ok := memo.Load(g); ok {
+		return !v.(bool)
 	}
+	has := len(c10KindSwitches(g)) > 0
+	memo.Store(g, has)
 	return !has
 }
 
